@@ -471,28 +471,25 @@ func (s *Service) writeToBatcher() {
 				// Channel closed, exiting goroutine.
 				return
 			}
-			if o.Index != 0 && (o.Index <= s.highWatermark.Load() || o.Index < s.storedAtStart) {
-				// High watermark has advanced since we processed these CDC events.
-				// This could happen on followers if the Leader has advanced the HWM
-				// but this node hasn't even had the event generated by its underlying
-				// database yet. Or the events are generated for a second time by the
-				// replay of the log after a restart, and are in the FIFO already; queued
-				// again they would be sent behind events with a higher index.
-				stats.Add(numBatcherWriteIgnored, 1)
-				vhook.Trace(s.nodeID, "cdc.in", "idx", o.Index, "ignored", true)
-				continue
-			}
-			vhook.Trace(s.nodeID, "cdc.in", "idx", o.Index, "ignored", false)
-			if _, err := s.batcher.WriteOne(o, nil); err != nil {
-				s.logger.Printf("error writing CDC events to batcher: %v", err)
-			} else {
-				s.writesToBatcher.Add(1)
-				stats.Add(numBatcherWrites, 1)
-				stats.Add(numBatcherEventsWrite, int64(len(o.Events)))
-			}
+			s.toBatcher(o)
 
 		case ch := <-s.snapshotCh:
 			stats.Add(numSnapshotSync, 1)
+			// Every event the database has handed over has to be in the FIFO before the
+			// snapshot may truncate the log, so those still waiting on the input channel
+			// go to the batcher first.
+			for drained := false; !drained; {
+				select {
+				case o := <-s.in:
+					if o == nil {
+						drained = true
+					} else {
+						s.toBatcher(o)
+					}
+				default:
+					drained = true
+				}
+			}
 			vhook.Trace(s.nodeID, "cdc.sync", "phase", "begin")
 			evg := &proto.CDCIndexedEventGroup{
 				Flush: true,
@@ -513,6 +510,30 @@ func (s *Service) writeToBatcher() {
 		case <-s.done:
 			return
 		}
+	}
+}
+
+// toBatcher writes the event group to the batcher, unless its events are known to
+// have been sent to the webhook, or written to the FIFO, already.
+func (s *Service) toBatcher(o *proto.CDCIndexedEventGroup) {
+	if o.Index != 0 && (o.Index <= s.highWatermark.Load() || o.Index < s.storedAtStart) {
+		// High watermark has advanced since we processed these CDC events.
+		// This could happen on followers if the Leader has advanced the HWM
+		// but this node hasn't even had the event generated by its underlying
+		// database yet. Or the events are generated for a second time by the
+		// replay of the log after a restart, and are in the FIFO already; queued
+		// again they would be sent behind events with a higher index.
+		stats.Add(numBatcherWriteIgnored, 1)
+		vhook.Trace(s.nodeID, "cdc.in", "idx", o.Index, "ignored", true)
+		return
+	}
+	vhook.Trace(s.nodeID, "cdc.in", "idx", o.Index, "ignored", false)
+	if _, err := s.batcher.WriteOne(o, nil); err != nil {
+		s.logger.Printf("error writing CDC events to batcher: %v", err)
+	} else {
+		s.writesToBatcher.Add(1)
+		stats.Add(numBatcherWrites, 1)
+		stats.Add(numBatcherEventsWrite, int64(len(o.Events)))
 	}
 }
 
